@@ -66,8 +66,9 @@ def known_match(known, prop, f, hist, ev):
 
 
 def run_batch(out, label, dictname, histories, spec="Trace_File", nshards=None, known=None, driver="drive", keep=None,
-              extra_script=None, group_key=None, extra_specs=(), on_result=None):
-    """Drive + validate one batch; classify failures for out.prop."""
+              extra_script=None, group_key=None, extra_specs=(), on_result=None, also_own=()):
+    """Drive + validate one batch; classify failures for out.prop.  also_own: failure tags this batch additionally counts as
+    the property's own (a batch built so that a failure under that tag can only be about this property)."""
     if not histories:
         return
     if len(out.violations) >= 40 and not getattr(out, "replay", False):
@@ -99,8 +100,9 @@ def run_batch(out, label, dictname, histories, spec="Trace_File", nshards=None, 
         per_hist.setdefault(ghi, []).append(f)
     for ghi, fs in sorted(per_hist.items()):
         hist = histories[ghi] if 0 <= ghi < len(histories) else {}
-        mine = [f for f in fs if tag_matches(out.prop, f)]
-        others = [f for f in fs if not tag_matches(out.prop, f)]
+        own = lambda f: tag_matches(out.prop, f) or f.tag in also_own
+        mine = [f for f in fs if own(f)]
+        others = [f for f in fs if not own(f)]
         for f in others:
             out.notes.append(f"{f.tag}.{f.rule} batch={label} hist={ghi} op={f.oi}")
         if not mine:
@@ -576,7 +578,11 @@ def check_c10(tier, seed):
     # refused seeks on a handle holding unflushed data: bytes and position must not change
     from . import hgens
     rng = random.Random(seed + 33)
-    hs = hgens.refused_seek_histories(tier)
+    # (these scripts consist of refused calls, each bracketed by position / length / read observations: what an observation right
+    # after a refused call answers is C10's own business - "every subsequently observable result the same" -, whatever rule of the
+    # handle validator states it)
+    run_batch(out, "refused_seeks", "A", hgens.refused_seek_histories(tier), spec="Trace_Handle", driver="hdrive", also_own=("C06",))
+    hs = []
     for i in range(60 if tier == "quick" else 600):
         h = hgens.random_handle_history(rng, f"hs{i}", 3 + i % 2, hgens.CONFIGS[i % len(hgens.CONFIGS)], 40, rng.choice([None, 100, 5000]))
         h["hash"] = True
